@@ -66,6 +66,9 @@ where
     arc_swap::verif::reset_list();
     let n = prog.threads.len();
     sched::begin_execution(n + 1, strat, atomics);
+    // the lock-based strategy blocks in the kernel: a thread parked by the scheduler may hold the lock another one wants
+    let steal = prog.strategy == "rwlock";
+    sched::with(|g| g.steal_stalled = steal);
     sched::with(|g| {
         g.step_limit = if prog.step_limit > 0 { prog.step_limit } else { 60_000 };
         g.stale.clear();
